@@ -66,6 +66,11 @@ def _extras():
         "field_of_mutable_subquery": _field_of_mutable_sub,
         "query_on_mutable_subquery": lambda: (lambda sub: Query.from_(sub).select(sub.a).where(sub.a > 1))(
             Query.from_(Table("t"), immutable=False).select("a").as_("ms")),
+        # documents that JSON text does not carry faithfully (tuples, non-string keys) inside a JSON term and a dict constant
+        "json_tuple_intkey": lambda: __import__("pypika_tortoise").terms.JSON({1: "one", "t": (1, 2), "n": {2: (3,)}}),
+        "json_in_query": lambda: Query.from_(Table("t")).select("a").where(
+            Table("t").j.contains({"t": (1, 2)}) & (Table("t").k == __import__("pypika_tortoise").terms.JSON({1: "one", "t": (1, 2)}))),
+        "dict_constant_tuple": lambda: Query.from_(Table("t")).select(ValueWrapper({"t": (1, 2), 3: "x"})),
         "wrapper_not_parametrized": lambda: Query.from_(Table("t")).select(ValueWrapper("keep", allow_parametrize=False).as_("k")),
     }
 
@@ -258,6 +263,9 @@ def run_case(case):
         return res
     tname = type(o).__qualname__
     fam_ops = WRAP_OPS if key[0] == "wrap" else (c02._fam(key[0])[1] if key[0] != "extra" else {})
+    if key[0].startswith("mut:"):
+        # builders created with immutable=False: their calls work in place, but a duplicate is still a separate statement
+        fam_ops = {k_: v_ for k_, v_ in c01.QB_OPS.items() if k_ in ("select:f", "where:t", "groupby:f", "orderby:f", "join:on", "from_:u", "limit", "having")}
     res.nontrivial = 1
     o0 = obs(o)
     res.states.append(h64(repr(key)))
